@@ -6,6 +6,7 @@ open PttVerif PttVerif.C04
 structure DS where
   s : St (List Nat)
   file : PwFile (List Nat)
+  expirable : List Nat := []
 
 def env := realEnv
 def maxU : Nat := env.MAX
@@ -38,7 +39,7 @@ def showRid : Option (List Nat) → String
   | some a => toHex a
 
 /-- ops: reset | file none | file <0|1> <id>* | load | add <k> <id> | remove <k> | set <uid> <id> |
-search <id> | dosearch <id> | getuserid <uid> | lookupall | register <id> <fault 0|1> | restart create|open load|noload | poke head|next <i> <v> | attach <v> <s> <V> <S> |
+search <id> | dosearch <id> | getuserid <uid> | lookupall | register <id> <fault 0|1> [sweep] | expire <slot> | restart create|open load|noload | poke head|next <i> <v> | attach <v> <s> <V> <S> |
 peer <add|remove|set|search|dosearch|getuserid|lookupall …> -/
 def showAll (l : List (Nat × List Int)) : String :=
   if l.isEmpty then "-" else
@@ -51,6 +52,26 @@ def peerOps : List String := ["add", "remove", "set", "search", "dosearch", "get
 def stepCore (d : DS) (ws : List String) : DS × String :=
   match ws with
   | ["lookupall"] => noDump d (do let l ← lookupAll d.s; pure (showAll l))
+  | ["expire", k] =>
+    match k.toNat? with
+    | some k =>
+      match d.file with
+      | some (recs, _) => if k < recs.length then ({ d with expirable := k :: d.expirable }, "ok") else (d, "ok")
+      | none => (d, "ok")
+    | none => (d, "bad-op")
+  | ["register", h, "0", "sweep"] =>
+    match d.file, parseId h with
+    | some (recs, false), some id =>
+      if recs.length = maxU then
+        match setupNewUserSweep env d.s recs d.expirable id with
+        | .ok (s', r, uid, recs') =>
+          let k := (uid - 1).toNat
+          let (recs'', ex') := if r = .ok then (recs'.set k id, d.expirable.filter (· ≠ k)) else (recs', d.expirable)
+          ({ d with s := s', file := some (recs'', false), expirable := ex' },
+            showRet r ++ " " ++ toString uid ++ " | " ++ dumpSt s' maxU)
+        | .error f => (d, toString f)
+      else (d, "bad-op")
+    | _, _ => (d, "bad-op")
   | ["register", h, fault] =>
     match parseId h with
     | some id =>
@@ -65,7 +86,8 @@ def stepCore (d : DS) (ws : List String) : DS × String :=
               let recs' := if k < recs.length then recs else recs ++ List.replicate (k + 1 - recs.length) env.zero
               some (recs'.set k id, if k < recs.length then torn else false)
             | _, f => f
-          ({ d with s := s', file := file' }, showRet r ++ " " ++ toString uid ++ " | " ++ dumpSt s' maxU)
+          let ex' := if r = .ok then d.expirable.filter (· ≠ (uid - 1).toNat) else d.expirable
+          ({ d with s := s', file := file', expirable := ex' }, showRet r ++ " " ++ toString uid ++ " | " ++ dumpSt s' maxU)
         | .error f => (d, toString f)
       else (d, "bad-op")
     | none => (d, "bad-op")
@@ -80,11 +102,11 @@ def stepCore (d : DS) (ws : List String) : DS × String :=
           (match lr with | some r => showRet r | none => "-")))
     else (d, "bad-op")
   | ["reset"] => ({ d with s := resetSt env }, "ok")
-  | ["file", "none"] => ({ d with file := none }, "ok")
+  | ["file", "none"] => ({ d with file := none, expirable := [] }, "ok")
   | "file" :: t :: ids =>
     if t = "0" ∨ t = "1" then
       match parseIds ids with
-      | some l => ({ d with file := some (l, t = "1") }, "ok")
+      | some l => ({ d with file := some (l, t = "1"), expirable := [] }, "ok")
       | none => (d, "bad-op")
     else (d, "bad-op")
   | ["load"] => withDump d (do let (s, r) ← loadUHash env d.s d.file; pure (s, showRet r))
